@@ -89,7 +89,7 @@ func RunCheck(w *World, o CheckOpts) int {
 			outs[i] = fo
 			par <- struct{}{}
 			t0 := time.Now()
-			res := w.GenVC(fn, ct)
+			res := w.GenVC(fn, ct, func(e *Engine) { e.CheckNarrow = g.Narrow })
 			fo.genS = time.Since(t0).Seconds()
 			<-par
 			fo.vc = res
@@ -330,7 +330,7 @@ func WriteBaseline(w *World, prop, verifDir string) error {
 		if g.NoCt {
 			ct = nil
 		}
-		res := w.GenVC(w.Funcs[k], ct)
+		res := w.GenVC(w.Funcs[k], ct, func(e *Engine) { e.CheckNarrow = g.Narrow })
 		if res.Rejected != "" {
 			continue
 		}
